@@ -224,7 +224,7 @@ func init() {
 		core := []string{"c07-join-vs-lastleave-close", "c07-lastleave-vs-lastleave", "c07-create-vs-create", "c10-eadd-eadd", "c10-join-join", "c10-tadd-same", "c10-asset-asset", "c09-quad-quad", "c09-quad-region", "c09-mergequad-region", "c09-first-joins", "c07-lastleave-vs-create", "c06-lastleave-entity-vs-join"}
 		for _, b := range core {
 			pb := bPlain + 1
-			if tier != "thorough" && (b == "c07-create-vs-create" || b == "c07-lastleave-vs-lastleave") {
+			if tier != "thorough" && (b == "c07-create-vs-create" || b == "c07-lastleave-vs-lastleave" || b == "c07-lastleave-vs-create") {
 				pb = bPlain // C07 runs these one bound deeper without the decorators
 			}
 			jobs = append(jobs, s2jobOpt(b, bRace, budget, true, true), s2jobOpt(b, pb, budget, true, false))
